@@ -352,7 +352,8 @@ func C08(r *Run) {
 			continue
 		}
 		corpusUsed++
-		fe2 := fe; _ = fe2
+		fe2 := fe
+		_ = fe2
 		submit(func() [][]byte {
 			d := newDir()
 			defer os.RemoveAll(d)
